@@ -40,11 +40,20 @@ def main():
     wc_born = {}        # id(cache key object) is not stable -> use the key itself (hashable namedtuple)
     eq_born = {}
     cnt = {}
+    keys = {}
+    wc_token = {}       # actual cache key -> stable token (digest of a seed-independent description of the key)
+    tokens_used = {}
+    uuid_key = {}       # UUID handed out by create_equivalence_id -> digest of the value key
+
+    def token_of(wcc):
+        return wc_token.get(wcc) or "?" + _h(repr(tuple(str(x) for x in wcc)).encode())[:8]
 
     def reset_counters():
         cnt.clear()
         cnt.update(wc_lookups=0, wc_hits=0, wc_stale_hits=0, eq_calls=0, eq_stale=0, am_sets=0, am_stale_sets=0,
                    am_stale_conflicts=0)
+        keys.clear()
+        keys.update(vk=set(), vks=set(), wk=set(), wks=set())
 
     reset_counters()
     CWC = WC.CompressedWeightCache
@@ -54,10 +63,12 @@ def main():
     def get_tensor_with_same_compression(wcc):
         r = real_get(wcc)
         cnt["wc_lookups"] += 1
+        keys["wk"].add(token_of(wcc))
         if r is not None:
             cnt["wc_hits"] += 1
             if wc_born.get(wcc, obs["step"]) != obs["step"]:
                 cnt["wc_stale_hits"] += 1
+                keys["wks"].add(token_of(wcc))
         return r
 
     def add(tens):
@@ -71,18 +82,46 @@ def main():
 
     def create_equivalence_id(key):
         cnt["eq_calls"] += 1
+        kd = _h(repr(key).encode())[:10]
+        keys["vk"].add(kd)
         if key in eq_born:
             if eq_born[key] != obs["step"]:
                 cnt["eq_stale"] += 1
+                keys["vks"].add(kd)
         else:
             eq_born[key] = obs["step"]
-        return real_eq(key)
+        u = real_eq(key)
+        uuid_key[u] = kd
+        return u
 
     create_equivalence_id.cache_info = real_eq.cache_info
     create_equivalence_id.cache_clear = real_eq.cache_clear
     for name, mod in list(sys.modules.items()):
         if name.startswith("ethosu.vela") and mod is not None and getattr(mod, "create_equivalence_id", None) is real_eq:
             setattr(mod, "create_equivalence_id", create_equivalence_id)
+
+    # scheduler.py reaches the encoder through the module attribute: describe every cache key it will look up
+    real_encode = WC.encode_weight_and_scale_tensor
+
+    def encode_weight_and_scale_tensor(arch, op, weight_tens, scale_tens, kernel, block_config, depth_offsets):
+        try:
+            wcc = WC.create_weight_compression_config(weight_tens, op.type.npu_block_type, block_config.ofm_block.depth,
+                                                      hash(str(depth_offsets)), kernel.dilation)
+            if wcc not in wc_token:
+                vid = weight_tens.value_id
+                vpart = "V" + uuid_key[vid] if vid in uuid_key else "F%d:%s" % (obs["step"], weight_tens.name)
+                d = [vpart, str(wcc.npu_block_type), int(wcc.ofm_block_depth), [int(x) for x in depth_offsets],
+                     [int(x) for x in kernel.dilation]]
+                tok = ("v" if vpart[0] == "V" else "f") + _h(json.dumps(d).encode())[:10]
+                while tokens_used.get(tok, wcc) != wcc:
+                    tok += "+"
+                tokens_used[tok] = wcc
+                wc_token[wcc] = tok
+        except Exception:       # observation must never change what the compiler does
+            pass
+        return real_encode(arch, op, weight_tens, scale_tens, kernel, block_config, depth_offsets)
+
+    WC.encode_weight_and_scale_tensor = encode_weight_and_scale_tensor
 
     TAM = T.TensorAddressMap
     am_born = {}
@@ -139,7 +178,7 @@ def main():
                         rec["digest"] = _h(open(fn, "rb").read())
                     if os.path.isdir(od):
                         for f in sorted(os.listdir(od)):
-                            if "_summary_" in f and f.endswith(".csv"):
+                            if f.startswith(base + "_summary_") and f.endswith(".csv"):
                                 rec["csv"] = _h(open(os.path.join(od, f), "rb").read())
                                 rec["csv_text"] = open(os.path.join(od, f)).read()
                             if f.endswith("_debug.xml"):
@@ -171,9 +210,15 @@ def main():
         rec["stdout_tail"] = text[-300:]
         rec["after"] = project()
         rec["obs"] = dict(cnt)
+        rec["keys"] = {k: sorted(v) for k, v in keys.items()}
         out["steps"].append(rec)
-    with open(sys.argv[2], "w") as f:
-        json.dump(out, f)
+        # written after every step: a hard crash of the interpreter in a later step keeps the earlier records
+        with open(sys.argv[2] + ".tmp", "w") as f:
+            json.dump(out, f)
+        os.replace(sys.argv[2] + ".tmp", sys.argv[2])
+    if not plan["steps"]:
+        with open(sys.argv[2], "w") as f:
+            json.dump(out, f)
     return 0
 
 
